@@ -657,6 +657,12 @@ func orchestrate(p *Prop, o *opts) int {
 				}
 			}()
 			for c := range cases {
+				if atomic.LoadInt32(&workerDeaths) >= maxWorkerDeaths {
+					// the run is already a violation many times over: the remaining cases are not executed
+					// (each death costs a watchdog or an out-of-memory build-up plus its isolated re-run)
+					atomic.AddInt64(&skippedCases, 1)
+					continue
+				}
 				if ch == nil {
 					var err error
 					ch, err = spawn(p, o, "")
@@ -681,11 +687,15 @@ func orchestrate(p *Prop, o *opts) int {
 				ch.errF.Close()
 				os.Remove(ch.errF.Name())
 				ch = nil
+				atomic.AddInt32(&workerDeaths, 1)
 				handleDeath(p, o, rep, c, st, stderr)
 			}
 		}()
 	}
 	wg.Wait()
+	if n := atomic.LoadInt64(&skippedCases); n > 0 {
+		rep.Inconc = append(rep.Inconc, fmt.Sprintf("%d cases were not executed: the run was cut short after %d worker deaths/hangs (all reported as violations)", n, maxWorkerDeaths))
+	}
 	if p.Race {
 		rep.Extra["race_logs"] = raceLogs
 	}
@@ -697,6 +707,13 @@ func orchestrate(p *Prop, o *opts) int {
 }
 
 var confirmedHangs int32
+
+// workerDeaths counts the cases on which a worker died or hung; past maxWorkerDeaths the orchestrator
+// stops executing cases (the verdict is "violated" already and cannot change).
+var workerDeaths int32
+var skippedCases int64
+
+const maxWorkerDeaths = 40
 
 // handleDeath applies the isolated re-run rule.
 func handleDeath(p *Prop, o *opts, rep *Report, c Case, st, stderr string) {
